@@ -29,7 +29,7 @@ Inductive conv :=
 | CvVal (q : Q)       (* converted to this time value *)
 | CvNotImpl           (* TypeError -> the wrapper returns NotImplemented *)
 | CvRaise             (* another exception escapes (ValueError for inf / nan / unparsable text, OverflowError, ZeroDivisionError) *)
-| CvArray.            (* object array of converted elements (the wrapper then fails on `converted._value`) *)
+| CvArray.            (* array operand: handled element by element by numpy's reflected operator *)
 
 Definition from_float_default (f : pyfloat) : conv :=
   match f with Some (_, dec) => CvVal dec | None => CvRaise end.
@@ -81,7 +81,9 @@ Inductive pyval :=
 | VOpaque                           (* None, complex, list, ...: nothing works, and the object does not know TimeType *)
 | VReflects                         (* not convertible, but its own reflected operator accepts a TimeType (sympy.Symbol,
                                        ExpressionScalar): after NotImplemented python calls it *)
-| VArray.                           (* numpy.ndarray *)
+| VArray                            (* numpy.ndarray *)
+| VCustom (p : probes).             (* round 4: an object of a class built by the harness that gives exactly these answers
+                                       (small-scope exhaustive walk through _try_from_any's control flow) *)
 
 Definition b2z (b : bool) : Z := if b then 1 else 0.
 Definition no_probes (c : ctor_res) : probes := mkProbes c None None None false None None.
@@ -100,6 +102,7 @@ Definition probes_of (v : pyval) : probes :=
   | VArray => mkProbes CtTypeError None None None true None None
   | VTime q | VMpq q | VFraction q | VSymRational q => no_probes (CtOk q)      (* not used *)
   | VFloat f => mkProbes CtTypeError None None (Some f) false None None          (* not used *)
+  | VCustom p => p
   end.
 (* probes that cannot influence the result (answers after the deciding one) are filled with None *)
 
@@ -118,7 +121,8 @@ Definition wrapped_binop (op : binop) (t : Q) (v : pyval) (swap : bool) : bres :
   | CvVal q => match (if swap then binop_eval op q t else binop_eval op t q) with Some r => BVal r | None => BZeroDiv end
   | CvNotImpl => match v with VReflects => BReflected | _ => BTypeError end   (* NotImplemented: the other operand decides *)
   | CvRaise => BRaise
-  | CvArray => BAttrError
+  | CvArray => BReflected         (* round 4 repair: NotImplemented for an array operand; numpy's reflected operator applies
+                                      the operation per element (was: AttributeError on `converted._value`) *)
   end.
 
 (* the documented meaning of an operand: its exact value, or for floating-point kinds the value of the shortest decimal
